@@ -35,8 +35,8 @@ ASSUMPTIONS = [
 CASE_TIMEOUT = 120
 
 _TOL = None
-FAR_ALIGNED_UNCHECKED = ("Cylinder", "CylinderSegment", "Tetrahedron", "Triangle", "TriangularMesh", "Polyline", "Cuboid")
-WEAK_NEAR_SPECIAL_SETS = ("CylinderSegment", "Tetrahedron", "Triangle", "TriangularMesh", "Polyline")
+FAR_ALIGNED_UNCHECKED = ("Cylinder", "CylinderSegment", "Tetrahedron", "Triangle", "TriangularMesh", "Cuboid")
+WEAK_NEAR_SPECIAL_SETS = ("CylinderSegment", "Tetrahedron", "Triangle", "TriangularMesh")
 
 
 def tolerances():
@@ -72,9 +72,14 @@ def _nearest_bucket(table, key):
     return table[k]
 
 
+GROSS = 0.5  # what is still asserted in a bucket without an envelope: the right order of magnitude
+
+
 def tolerance(cls, t_rel, d_rel, near="surface"):
     """envelope for an observer at distance t_rel*L from its nearest special set `near` (prolongations included) and
-    d_rel*L from the surface; float('inf') for buckets that are not checked"""
+    d_rel*L from the surface; float('inf') for buckets without an envelope (the library itself is off by more than
+    1e-3 there).  C01 itself still asserts GROSS in those buckets (see run_case) and lists what fails even that as the
+    open finding KF-C01-4; the other checks, which use this function as a conditioning oracle, assert nothing there."""
     tab = tolerances().get(cls)
     if not tab:
         return 1e-6
@@ -250,11 +255,14 @@ def run_case(case, ctx):
                     fh.write(json.dumps({"cls": cls, "field": field, "region": reg, "t": float(tsp[i]), "near": tname[i], "d": float(dist[i]),
                                          "err": err, "route": case["route"], "inside": bool(inside[i]),
                                          "raxis": float(min(raxis[i], 1e30)), "coplanar": coplanar[i]}) + "\n")
-            if not np.isfinite(tol):
-                ctx.label("bucket_not_checked")
+            weak = not np.isfinite(tol)
+            if weak and not os.environ.get("VERIF_C01_CALIB"):
+                # no envelope here (the library was off by more than 1e-3 in calibration): only the order of magnitude is asserted
+                ctx.label("bucket_without_envelope_gross_check_only")
+                tol = GROSS
             if err > tol:
                 out.append(Violation(
-                    {"sub": "field_differs_from_integral", "cls": cls, "region": reg, "field": field, "route": case["route"],
+                    {"sub": "field_differs_from_integral", "cls": cls, "region": reg, "field": field, "route": case["route"], "bucket_without_envelope": weak,
                      "t_bucket": t_bucket(tsp[i]), "near": tname[i], "d_bucket": d_bucket(dist[i]),
                      "close_to_axis": bool(raxis[i] < 1e-3), "coplanar_face_planes": coplanar[i], "magnitude": "O(1)" if err > 1e-2 else ("1e-4..1e-2" if err > 1e-4 else "small")},
                     f"{cls} {field} at local {loc[i].tolist()} (region {reg}, d/L={dist[i]:.3g}, t/L={tsp[i]:.3g}, inside={bool(inside[i])}): "
